@@ -116,6 +116,12 @@ def i_pick(eng, st, fr, fn, args, ins):
         _ret(st, ins, v)
         return
     conts = []
+    fix = eng.opts.get('fix') or {}
+    if name in fix:
+        # this job covers one slice of the case split (the other values run in sibling jobs)
+        if not (lo <= fix[name] <= hi):
+            raise PathEnd('assume-false')
+        lo = hi = fix[name]
     for c in range(lo, hi + 1):
         s = st if c == hi else st.clone()
         s.nondet.append((name, tid, c))
